@@ -5,7 +5,6 @@ open RModel
 
 abbrev Cmd := St → List String → String → St × Verdict
 
-def skipV (st : St) (got : String) : St × Verdict := (st, expect "skip" got)
 
 /-- mutate bitmap `x` with `f`, expected output = prefix ++ digest -/
 def mut32 (st : St) (x : String) (got : String) (f : BSet → BSet) (pre : BSet → String := fun _ => "") :
